@@ -125,14 +125,114 @@ package gabi
 //@ func (*ProofD).reconstructRangeProofStructures
 //@   property C12 C08
 //@   requires p != nil && wfpk(pk) && rangepresent(p)
-//@   ensures ok: err == nil ==> p.cachedRangeStructures != nil && forall idx in dom(p.cachedRangeStructures) :: in(p.RangeProofs, idx) && len(p.cachedRangeStructures[idx]) == len(p.RangeProofs[idx]) && forall i in 0..len(p.cachedRangeStructures[idx]) :: p.cachedRangeStructures[idx][i] != nil && p.cachedRangeStructures[idx][i].index == idx
+//@   ensures ok: err == nil ==> p.cachedRangeStructures != nil && forall idx in dom(p.cachedRangeStructures) :: in(p.RangeProofs, idx) && len(p.cachedRangeStructures[idx]) == len(p.RangeProofs[idx]) && forall i in 0..len(p.cachedRangeStructures[idx]) :: p.cachedRangeStructures[idx][i] != nil && p.cachedRangeStructures[idx][i].index == idx && p.cachedRangeStructures[idx][i].ld <= pk.Params.Lm
 //@   modifies p.cachedRangeStructures
 //@   assert at ExtractStructure index: $1 == index
 //@   loop 0 invariant p.cachedRangeStructures != nil && fresh(p.cachedRangeStructures)
-//@   loop 0 invariant forall idx in dom(p.cachedRangeStructures) :: in(p.RangeProofs, idx) && len(p.cachedRangeStructures[idx]) == len(p.RangeProofs[idx]) && forall i in 0..len(p.cachedRangeStructures[idx]) :: p.cachedRangeStructures[idx][i] != nil && p.cachedRangeStructures[idx][i].index == idx
+//@   loop 0 invariant forall idx in dom(p.cachedRangeStructures) :: in(p.RangeProofs, idx) && len(p.cachedRangeStructures[idx]) == len(p.RangeProofs[idx]) && forall i in 0..len(p.cachedRangeStructures[idx]) :: p.cachedRangeStructures[idx][i] != nil && p.cachedRangeStructures[idx][i].index == idx && p.cachedRangeStructures[idx][i].ld <= pk.Params.Lm
 //@   loop 0 modifies mapof(p.cachedRangeStructures), onlyfresh("rangeproof.ProofStructure")
 //@   loop 1 invariant p.cachedRangeStructures != nil && fresh(p.cachedRangeStructures) && in(p.cachedRangeStructures, index) && in(p.RangeProofs, index) && 0 <= $i && $i <= len(proofs) && len(p.cachedRangeStructures[index]) == $i
-//@   loop 1 invariant forall j in 0..$i :: p.cachedRangeStructures[index][j] != nil && p.cachedRangeStructures[index][j].index == index
+//@   loop 1 invariant forall j in 0..$i :: p.cachedRangeStructures[index][j] != nil && p.cachedRangeStructures[index][j].index == index && p.cachedRangeStructures[index][j].ld <= pk.Params.Lm
 //@   loop 1 invariant forall idx in dom(p.cachedRangeStructures) :: idx != index ==> in(p.RangeProofs, idx) && len(p.cachedRangeStructures[idx]) == len(p.RangeProofs[idx])
 //@   loop 1 modifies elems(p.cachedRangeStructures[index])
 //@   mustfail canary: err != nil
+
+//@ func (*ProofD).ChallengeContribution
+//@   property C01 C02 C11 C12 C08
+//@   requires p != nil && wfpk(pk) && nonnegD(p) && p.cachedRangeStructures == nil
+//@   ensures struct: err == nil ==> structD(p, pk) && len(result0) >= 2 && result0[0] == p.A && forall i in 0..len(result0) :: result0[i] != nil
+//@   ensures hidden: err == nil ==> forall idx in dom(p.RangeProofs) :: in(p.AResponses, idx)
+//@   ensures nonrev: err == nil && p.NonRevocationProof != nil ==> nrstruct(p.NonRevocationProof) && p.NonRevocationProof.Challenge == p.C && p.NonRevocationProof.SignedAccumulator != nil && p.NonRevocationProof.SignedAccumulator.Accumulator != nil && p.NonRevocationProof.Nu == p.NonRevocationProof.SignedAccumulator.Accumulator.Nu
+//@   ensures alpha: err == nil && p.NonRevocationProof != nil ==> exists k in dom(p.AResponses) :: p.NonRevocationProof.Responses["alpha"] == p.AResponses[k] && val(p.AResponses[k]) < pow2(revocation.Parameters.AttributeSize + revocation.Parameters.ChallengeLength + revocation.Parameters.ZkStat + 1)
+//@   ensures fail: err != nil ==> result0 == nil
+//@   assume revocation.Parameters.AttributeSize == 195 && revocation.Parameters.ChallengeLength == 256 && revocation.Parameters.ZkStat == 128
+//@   modifies p.cachedRangeStructures, p.NonRevocationProof.Nu, p.NonRevocationProof.Challenge, mapof(p.NonRevocationProof.Responses), p.NonRevocationProof.SignedAccumulator.Accumulator, heap("rangeproof.Proof.MResponse")
+//@   assert at VerifyProofStructure mresponse: $2.MResponse != nil && in(p.AResponses, $0.index) && val($2.MResponse) == val(p.AResponses[$0.index])
+//@   assert at VerifyProofStructure same: in(p.RangeProofs, $0.index)
+//@   assert at CommitmentsFromProof challenge: $3 == p.C
+//@   loop 0 invariant forall idx in dom(p.RangeProofs) :: seen(idx) ==> in(p.AResponses, idx) && forall i in 0..len(p.RangeProofs[idx]) :: p.RangeProofs[idx][i] != nil
+//@   loop 1 invariant 0 <= $i && $i <= len(proofs) && in(p.AResponses, index) && forall j in 0..$i :: proofs[j] != nil
+//@   loop 2 invariant maxAttribute >= 0 && maxAttribute < len(pk.R) && forall k in dom(p.AResponses) :: seen(k) ==> k <= maxAttribute
+//@   loop 3 invariant fresh(l) && index >= 0 && index <= maxAttribute + 1 && maxAttribute < len(pk.R) && len(l) >= 2 && l[0] == p.A && forall j in 0..len(l) :: l[j] != nil
+//@   loop 3 modifies elems(l), onlyfresh("BV")
+//@   loop 4 invariant fresh(l) && 0 <= $i && $i <= len(structures) && len(l) >= 2 && l[0] == p.A && forall j in 0..len(l) :: l[j] != nil
+//@   loop 4 modifies elems(l), onlyfresh("BV")
+//@   mustfail canary: err != nil
+
+//@ func (*ProofD).VerifyWithChallenge
+//@   property C01 C02 C03 C11 C08
+//@   premise secretresponse: result ==> p.AResponses[0] != nil
+//@   requires p != nil && wfpk(pk) && reconstructedChallenge != nil
+//@   assume revocation.Parameters.AttributeSize == 195 && revocation.Parameters.ChallengeLength == 256 && revocation.Parameters.ZkStat == 128
+//@   ensures accept: result ==> structD(p, pk) && sizesD(p, pk) && val(p.C) == val(reconstructedChallenge)
+//@   ensures nonrev: result && p.NonRevocationProof != nil ==> nrstruct(p.NonRevocationProof) && val(p.NonRevocationProof.Challenge) == val(reconstructedChallenge) && p.NonRevocationProof.acc != nil && p.NonRevocationProof.acc.Nu != nil && val(p.NonRevocationProof.Nu) == val(p.NonRevocationProof.acc.Nu) && val(p.NonRevocationProof.Responses["alpha"]) <= val(revocation.Parameters.bTwoZk)
+//@   ensures alpha: result && p.NonRevocationProof != nil ==> exists k in dom(p.AResponses) :: val(p.NonRevocationProof.Responses["alpha"]) == val(p.AResponses[k]) && val(p.AResponses[k]) < pow2(revocation.Parameters.AttributeSize + revocation.Parameters.ChallengeLength + revocation.Parameters.ZkStat + 1)
+//@   modifies p.NonRevocationProof.acc, p.NonRevocationProof.SignedAccumulator.Accumulator
+//@   mustfail canary: !result
+
+//@ func (*ProofD).Verify
+//@   property C01 C02 C08
+//@   requires p != nil && wfpk(pk) && context != nil && nonce1 != nil && nonnegD(p) && p.cachedRangeStructures == nil
+//@   ensures accept: result ==> structD(p, pk) && sizesD(p, pk)
+//@   ensures hidden: result ==> forall idx in dom(p.RangeProofs) :: in(p.AResponses, idx)
+//@   modifies p.cachedRangeStructures, p.NonRevocationProof.Nu, p.NonRevocationProof.Challenge, mapof(p.NonRevocationProof.Responses), p.NonRevocationProof.SignedAccumulator.Accumulator, p.NonRevocationProof.acc, heap("rangeproof.Proof.MResponse")
+//@   mustfail canary: !result
+
+//@ func (*ProofU).Verify
+//@   property C02 C06 C08
+//@   requires p != nil && wfpk(pk) && context != nil && nonce != nil
+//@   ensures accept: result ==> structU(p, pk) && 0 <= val(p.VPrimeResponse) && val(p.VPrimeResponse) <= pow2(pk.Params.LvPrimeCommit+1)-1
+//@   modifies nothing
+//@   mustfail canary: !result
+
+//@ func (*ProofS).Verify
+//@   property C06 C08
+//@   nonlinear
+//@   requires p != nil && p.C != nil && p.EResponse != nil && wfpk(pk) && signature != nil && signature.A != nil && signature.E != nil && context != nil && nonce != nil
+//@   requires val(p.C) >= 0 && val(p.EResponse) >= 0 && val(signature.E) >= 0
+//@   modifies nothing
+//@   assert at common.HashCommit shape: len($0) == 5 && $0[0] == context && $0[2] == signature.A && $0[3] == nonce && !$1
+//@   assert at common.HashCommit q: val($0[1]) == pow(val(signature.A), val(signature.E), abs(val(pk.N)))
+//@   assert at common.HashCommit acommit: val($0[4]) == pow(val(signature.A), val(p.C) + val(p.EResponse) * val(signature.E), abs(val(pk.N)))
+//@   ensures binding: result ==> val(p.C) >= 0
+
+//@ # ---- proof lists ----
+//@ # a decodable list: every element is a non-nil *ProofD or *ProofU, all distinct objects, with non-negative integers and empty caches
+//@ pred elemok(x) := (x is *ProofD && x.(*ProofD) != nil && nonnegD(x.(*ProofD)) && x.(*ProofD).cachedRangeStructures == nil) || (x is *ProofU && x.(*ProofU) != nil)
+//@ pred listok(pl, keys) := len(keys) >= len(pl) && (forall i in 0..len(pl) :: elemok(pl[i]) && wfpk(keys[i])) && (forall i in 0..len(pl) :: forall j in 0..len(pl) :: i != j ==> ipay(pl[i]) != ipay(pl[j]))
+//@ pred elemstruct(x, pk) := (x is *ProofD ==> structD(x.(*ProofD), pk)) && (x is *ProofU ==> structU(x.(*ProofU), pk))
+
+//@ func (ProofList).challengeContributions
+//@   property C02 C08
+//@   requires listok(pl, publicKeys)
+//@   ensures nonnil: err == nil ==> forall i in 0..len(result0) :: result0[i] != nil
+//@   ensures structs: err == nil ==> forall i in 0..len(pl) :: elemstruct(pl[i], publicKeys[i])
+//@   ensures fail: err != nil ==> result0 == nil
+//@   modifies heap("ProofD.cachedRangeStructures"), heap("revocation.Proof.Nu"), heap("revocation.Proof.Challenge"), heap("MV:map[string]"), heap("MP:map[string]"), heap("SignedAccumulator.Accumulator"), heap("rangeproof.Proof.MResponse")
+//@   assert at ChallengeContribution key: $1 == publicKeys[$i]
+//@   loop 0 invariant 0 <= $i && $i <= len(pl) && fresh(contributions) && forall j in 0..len(contributions) :: contributions[j] != nil
+//@   loop 0 invariant forall j in 0..$i :: elemstruct(pl[j], publicKeys[j])
+//@   loop 0 invariant forall j in $i..len(pl) :: pl[j] is *ProofD ==> pl[j].(*ProofD).cachedRangeStructures == nil
+//@   loop 0 modifies elems(contributions), onlyfresh("BV")
+//@   mustfail canary: err != nil
+
+//@ pred cfield(x) := ite(x is *ProofD, val(x.(*ProofD).C), val(x.(*ProofU).C))
+//@ pred skref(x) := ite(x is *ProofD, ref(x.(*ProofD).AResponses[0]), ref(x.(*ProofU).SResponse))
+//@ pred skval(x) := ite(x is *ProofD, val(x.(*ProofD).AResponses[0]), val(x.(*ProofU).SResponse))
+
+//@ func (ProofList).Verify
+//@   property C02 C03 C08
+//@   requires context != nil && nonce != nil
+//@   requires (forall i in 0..len(pl) :: elemok(pl[i])) && (forall i in 0..len(publicKeys) :: wfpk(publicKeys[i])) && (forall i in 0..len(pl) :: forall j in 0..len(pl) :: i != j ==> ipay(pl[i]) != ipay(pl[j]))
+//@   ensures nonempty: result ==> len(pl) > 0 && len(pl) == len(publicKeys) && (len(keyshareServers) == 0 || len(keyshareServers) == len(pl))
+//@   ensures structs: result ==> forall i in 0..len(pl) :: elemstruct(pl[i], publicKeys[i])
+//@   ensures onechallenge: result ==> forall i in 0..len(pl) :: forall j in 0..len(pl) :: cfield(pl[i]) == cfield(pl[j])
+//@   ensures linked: result ==> forall i in 0..len(pl) :: forall j in 0..len(pl) :: (len(keyshareServers) == 0 || keyshareServers[i] == keyshareServers[j]) ==> skval(pl[i]) == skval(pl[j])
+//@   modifies heap("ProofD.cachedRangeStructures"), heap("revocation.Proof.Nu"), heap("revocation.Proof.Challenge"), heap("MV:map[string]"), heap("MP:map[string]"), heap("SignedAccumulator.Accumulator"), heap("rangeproof.Proof.MResponse"), heap("revocation.Proof.acc")
+//@   assert at VerifyWithChallenge samekey: $1 == publicKeys[$i]
+//@   loop 0 invariant 0 <= $i && $i <= len(pl) && len(pl) == len(publicKeys) && (len(keyshareServers) == 0 || len(keyshareServers) == len(pl)) && fresh(secretkeyResponses) && expectedChallenge != nil
+//@   loop 0 invariant forall j in 0..$i :: elemstruct(pl[j], publicKeys[j]) && cfield(pl[j]) == val(expectedChallenge)
+//@   loop 0 invariant forall j in 0..$i :: in(secretkeyResponses, ite(len(keyshareServers) > 0, keyshareServers[j], "")) && secretkeyResponses[ite(len(keyshareServers) > 0, keyshareServers[j], "")] != nil && val(secretkeyResponses[ite(len(keyshareServers) > 0, keyshareServers[j], "")]) == skval(pl[j])
+//@   loop 0 invariant forall k in dom(secretkeyResponses) :: secretkeyResponses[k] != nil
+//@   loop 0 invariant len(keyshareServers) == 0 ==> kss == ""
+//@   mustfail canary: !result
